@@ -18,6 +18,7 @@ OrderedDict and the chips in order of first appearance are the outer dict.
 -/
 import RigModel.Model.Proto
 import RigModel.Model.C07
+import RigModel.Model.C04
 import RigModel.Gen.Router
 import RigModel.Gen.Scp
 
@@ -438,6 +439,23 @@ def run (pol : Pol) : Prog α → Chip → Chip × Except MErr α × List Req
     let out := run pol (k sr.2) sr.1
     (out.1, out.2.1, r :: out.2.2)
 
+/-! ### the machine: a map from chip coordinates to chips -/
+
+/-- a SpiNNaker machine as the controller sees it: every coordinate has a chip -/
+abbrev Machine := ChipXY → Chip
+
+def Machine.set (m : Machine) (c : ChipXY) (s : Chip) : Machine := fun c' => if c' = c then s else m c'
+
+/-- run a program against a machine: every command is executed by the chip it addresses
+(`pol c` = allocation policy of chip `c`); returns final machine, outcome, commands sent -/
+def runM (pol : ChipXY → Pol) : Prog α → Machine → Machine × Except MErr α × List Req
+  | .ret a, m => (m, .ok a, [])
+  | .fail e, m => (m, .error e, [])
+  | .send r k, m =>
+    let sr := stepChip (pol (r.x, r.y)) (m (r.x, r.y)) r
+    let out := runM pol (k sr.2) (m.set (r.x, r.y) sr.1)
+    (out.1, out.2.1, r :: out.2.2)
+
 open Rig.Gen.Scp in
 def readReq (x y p : Nat) (c : Rig.C07.Chunk) : Req :=
   { x := x, y := y, p := p, cmd := cmdRead, arg1 := c.addr, arg2 := c.size, arg3 := c.dt, data := [] }
@@ -480,6 +498,10 @@ def loadEntries (scpLen : Nat) (entries : List Entry) (x y app : Nat) (k : Prog 
       | .ok data =>
         writeProg x y 0 (Rig.C07.write scpLen buf data)
           (.send (loadReq x y app entries.length buf rv.arg1) (fun _ => k))))
+
+/-- the chip after it executed an allocation request whose reply never reached the controller
+(SCP then retransmits the request and the chip executes it again) -/
+def afterLostAlloc (pol : Pol) (s : Chip) (x y app n : Nat) : Chip := (stepChip pol s (allocReq x y app n)).1
 
 /-- `load_routing_tables(routing_tables, app_id)`, tables in the dict's iteration order -/
 def loadTables (scpLen app : Nat) : List (ChipXY × List Entry) → Prog Unit
@@ -552,11 +574,87 @@ def ReadbackSpec (rows : Nat → Row) (t : List (Option Dec)) : Prop :=
 instance (rows : Nat → Row) (t : List (Option Dec)) : Decidable (ReadbackSpec rows t) := by
   unfold ReadbackSpec; infer_instance
 
+/-- outcome of `load_routing_tables(tables, app_id)` as seen from outside, tables in the dict's
+iteration order: `base c` = what chip `c` answered to its `alloc_rtr`, `res` = the exception raised
+(`none` = returned normally).  Chips are processed in order;
+each one whose allocation succeeds satisfies `LoadSpec`; at the first chip that answers 0 the call
+raises the router error naming that chip (count, x, y) and the routers of that chip and of all later
+chips are untouched; if no chip answers 0 the call returns normally. -/
+def errOf : Except MErr α → Option MErr
+  | .ok _ => none
+  | .error e => some e
+
+def TablesLoadSpec (rows0 rowsF : ChipXY → Nat → Row) (app : Nat) (base : ChipXY → Nat)
+    (res : Option MErr) : Tables → Prop
+  | [] => res = none
+  | (c, es) :: rest =>
+    if base c = 0 then
+      res = some (.routerError es.length c.1 c.2) ∧
+      ∀ ct ∈ (c, es) :: rest, ∀ j, j < rtrEntries → rowsF ct.1 j = rows0 ct.1 j
+    else
+      LoadSpec (rows0 c) (rowsF c) es app (base c) false true ∧
+      TablesLoadSpec rows0 rowsF app base res rest
+
+def TablesLoadSpec.dec (rows0 rowsF : ChipXY → Nat → Row) (app : Nat) (base : ChipXY → Nat)
+    (res : Option MErr) : (T : Tables) → Decidable (TablesLoadSpec rows0 rowsF app base res T)
+  | [] => by unfold TablesLoadSpec; infer_instance
+  | (c, es) :: rest => by
+    unfold TablesLoadSpec
+    have := TablesLoadSpec.dec rows0 rowsF app base res rest
+    split <;> infer_instance
+instance (rows0 rowsF : ChipXY → Nat → Row) (app : Nat) (base : ChipXY → Nat)
+    (res : Option MErr) (T : Tables) : Decidable (TablesLoadSpec rows0 rowsF app base res T) :=
+  TablesLoadSpec.dec rows0 rowsF app base res T
+
 /-- a row as the router copy can represent it (what the theorems assume of the initial state) -/
 def Row.Ok (r : Row) : Prop :=
   match r.ent with
   | none => True
   | some x => x.route < 16777216 ∧ x.key < 4294967296 ∧ x.mask < 4294967296 ∧ x.app < 256 ∧ x.core < 16
+
+/-! ### what the router does with a loaded table (used by the cross-model theorems) -/
+
+/-- a packet key matches an entry when its bits under the mask equal the entry's key -/
+def Entry.matches (e : Entry) (k : Nat) : Bool := k &&& e.mask == e.key
+
+/-- first-match lookup in table order (the router takes the lowest matching row) -/
+def lookup (T : List Entry) (k : Nat) : Option Entry := T.find? (fun e => e.matches k)
+
+/-- a packet key matches a used router row -/
+def Ent.matches (x : Ent) (k : Nat) : Bool := k &&& x.mask == x.key
+
+def rowHit (rows : Nat → Row) (k j : Nat) : Option Ent :=
+  match (rows j).ent with
+  | some x => if x.matches k then some x else none
+  | none => none
+
+/-- the router's decision for packet key `k`: the matching used row of lowest index -/
+def routerLookup (rows : Nat → Row) (k : Nat) : Option Ent :=
+  (List.range rtrEntries).findSome? (rowHit rows k)
+
+/-! ### conversion to and from C04's entries (`BitVec 32` key/mask, route and sources as bit sets) -/
+
+/-- bit of a source in C04's `sources` word: a link/route `l` is bit `l`, `None` is bit 24 -/
+def srcBit : Option Nat → Nat
+  | none => 24
+  | some l => l
+
+def srcWord (ss : List (Option Nat)) : Nat := routeWord (ss.map srcBit)
+
+/-- C10 entry -> C04 entry -/
+def toC04 (e : Entry) : Rig.C04.Entry :=
+  { route := routeWord e.route, key := BitVec.ofNat 32 e.key, mask := BitVec.ofNat 32 e.mask,
+    sources := srcWord e.sources }
+
+/-- the set bits of `w` below `n`, ascending -/
+def bitsOf (w n : Nat) : List Nat := (List.range n).filter (fun b => w.testBit b)
+
+def srcOfBit (b : Nat) : Option Nat := if b = 24 then none else some b
+
+/-- C04 entry -> C10 entry -/
+def ofC04 (e : Rig.C04.Entry) : Entry :=
+  { route := bitsOf e.route 24, key := e.key.toNat, mask := e.mask.toNat,
+    sources := (bitsOf e.sources 25).map srcOfBit }
 
 /-! ## line protocol -/
 open Lean Rig.P
@@ -738,6 +836,20 @@ def chipsOfJson (j : Json) : R Chips := do
 def basesOfJson (j : Json) : R (List (ChipXY × Nat)) := do
   (← asArr j).mapM (fun p => asPair p chipOfJson asNat)
 
+def baseOfBases (bases : List (ChipXY × Nat)) (c : ChipXY) : Nat :=
+  match bases.find? (fun p => p.1 == c) with
+  | some p => p.2
+  | none => 0
+
+/-- per-chip allocation policy that answers the observed base -/
+def polOfBases (bases : List (ChipXY × Nat)) : ChipXY → Pol := fun c _ _ _ => baseOfBases bases c
+
+def rowsByChipOfJson (j : Json) : R (ChipXY → Nat → Row) := do
+  let l ← (← asArr j).mapM (fun p => asPair p chipOfJson rowsOfJson)
+  pure (fun c => match l.find? (fun p => p.1 == c) with
+    | some p => p.2
+    | none => fun _ => default)
+
 def chipsToJson (cs : Chips) : Json :=
   jList (cs.map (fun p => jList [chipToJson p.1, rowsToJson p.2.chip.rows]))
 
@@ -774,6 +886,12 @@ def handle (op : String) (j : Json) : R Json := do
     let tr := traverse t
     pure (Json.mkObj [("visits", jList (tr.1.map (fun v =>
         jList [jOpt jNat v.dir, chipToJson v.chip, jNats (sortNats v.outs)]))), ("assert", Json.bool tr.2)])
+  | "to_c04" =>
+    -- the tables as C04's model reads them: [route word, key, mask, sources word] per entry
+    let t ← tablesOfJson (← field j "tables")
+    pure (jList (t.map (fun ct => jList [chipToJson ct.1, jList (ct.2.map (fun e =>
+      let c := toC04 e
+      jNats [c.route, c.key.toNat, c.mask.toNat, c.sources]))])))
   | "pack" =>
     match packEntry (← nat j "i") (← entryOfJson (← field j "entry")) with
     | .ok b => pure (jOk (jNats b))
@@ -786,12 +904,39 @@ def handle (op : String) (j : Json) : R Json := do
     let cs ← chipsOfJson (← field j "chips")
     let tables ← tablesOfJson (← field j "tables")
     let prog := loadTables (← nat j "scp_len") (← nat j "app") tables
-    let out := runChips prog cs (← basesOfJson (← field j "bases"))
+    -- the machine of the theorems (`runM`): chip `c` answers its allocation with the observed base
+    let bases ← basesOfJson (← field j "bases")
+    -- allocation requests that were executed but whose reply was lost, with the (unseen) answer:
+    -- the chip is in `afterLostAlloc` when the retransmitted request arrives
+    let lost ← match j.getObjVal? "lost" with
+      | .ok l => basesOfJson l
+      | .error _ => pure []
+    let app ← nat j "app"
+    let m0 : Machine := lost.foldl (fun (m : Machine) (p : ChipXY × Nat) =>
+      let n := match tables.find? (fun ct => ct.1 == p.1) with
+        | some ct => ct.2.length
+        | none => 0
+      m.set p.1 (afterLostAlloc (fun _ _ _ => p.2) (m p.1) p.1.1 p.1.2 app n)) (fun c => cs.get c)
+    let out := runM (polOfBases bases) prog m0
     pure (Json.mkObj [("trace", jList (out.2.2.map reqToJson)),
       ("outcome", match out.2.1 with
         | .ok _ => Json.str "ok"
         | .error e => mErrToJson e),
-      ("final", chipsToJson out.1)])
+      ("final", chipsToJson (cs.map (fun p => (p.1, DChip.ofChip (out.1 p.1)))))])
+  | "tables_load_spec" =>
+    let rows0 ← rowsByChipOfJson (← field j "rows0")
+    let rowsF ← rowsByChipOfJson (← field j "rows_f")
+    let tables ← tablesOfJson (← field j "tables")
+    let bases ← basesOfJson (← field j "bases")
+    let res ← asOpt (← field j "raised") (fun e => do
+      match ← asArr e with
+      | [_, c, x, y] => pure (MErr.routerError (← asNat c) (← asNat x) (← asNat y))
+      | _ => pure MErr.structError)
+    let others ← (← arr j "others").mapM chipOfJson
+    pure (Json.mkObj [
+      ("holds", Json.bool (decide (TablesLoadSpec rows0 rowsF (← nat j "app") (baseOfBases bases) res tables))),
+      ("others_unchanged", Json.bool (others.all (fun c =>
+        (List.range rtrEntries).all (fun i => rowsF c i == rows0 c i))))])
   | "get_model" =>
     let cs ← chipsOfJson (← field j "chips")
     let out := runChips (getEntries (← nat j "scp_len") (← nat j "x") (← nat j "y")) cs []
